@@ -44,7 +44,7 @@ ASSUMPTIONS = [
     "the app-level dir django_components/components (INSTALLED_APPS of the harness) is a component dir like any other",
 ]
 BOUNDS = {
-    "quick": {"cases": 3200, "max_files": 16, "shards": 32},
+    "quick": {"cases": 9600, "max_files": 16, "shards": 32},
     "thorough": {"cases": 48000, "max_files": 24, "shards": 48},
 }
 
